@@ -13,9 +13,21 @@
    everything else) and EVERY schedule incl. cancellation. Kind G (all programs, all schedules): the chart task only ever holds
    chart frames, manager.run and the emission of the two pipeline events (C14_pipeline_events_come_from_the_chart_task), and
    after the run has ended nothing is emitted at all (C13_nothing_starts_after_run).
-   Decided on the implementation only (oracle on the merged event / body trace, every run): that on_pipeline_complete carries
-   the very PipelineResult object run returns, the exact order start -> (complete(err))* -> final complete within one
-   execution, and that a node's value reaches a consumer only after its successful on_node_complete. *)
+   Kind F (ALL plain programs -- no switch / one-of / recurrent construct --, any number of event managers that do not raise,
+   suspending ones included, EVERY schedule incl. cancellation; theorems about the history [st_trace], below):
+     - on_pipeline_start: at most once per manager, never with a node id, and BEFORE ANYTHING ELSE: every entry of the history
+       other than the creation of the chart task and on_pipeline_start callbacks is preceded by the on_pipeline_start of every
+       manager (C14_on_plain_programs_pipeline_start_comes_first);
+     - on_pipeline_complete: at most once per manager; when run returns a PipelineResult, every manager has seen
+       on_pipeline_start and on_pipeline_complete exactly once and every on_pipeline_complete carried exactly that value /
+       error (C14_on_plain_programs_pipeline_events); AFTER EVERYTHING ELSE: from the first on_pipeline_complete on, the history
+       grows by on_pipeline_complete callbacks only (C14_on_plain_programs_pipeline_complete_comes_last);
+     - a node's value is never delivered before its successful on_node_complete: a result is stored only after every
+       manager has been told on_node_complete(node, error=None), and a body is invoked only after every manager has seen the
+       successful on_node_complete of each of its inputs (C14_on_plain_programs_values_follow_node_complete).
+   Decided on the implementation only (oracle on the merged event / body trace, every run): the identity of the PipelineResult
+   object, the exact order start -> (complete(err))* -> final complete within one execution, and everything above on
+   programs that are not plain. *)
 From MLPE Require Import Engine.Run Spec.Dataflow Proofs.ExecLemmas Proofs.Evolve Proofs.StackInv Proofs.CancelProofs
      Explore.StateEq Explore.Erase Explore.Explorer Explore.Safe Catalogue.Programs Catalogue.Certified Proofs.CertLemmas.
 
@@ -48,3 +60,75 @@ Example C14_premises_satisfiable :
   main_done st = true /\ ctr_get (CEmit 0 EvPipelineStart None) st = 1 /\ ctr_get (CEmit 0 EvPipelineComplete None) st = 1
   /\ ctr_get (CEmit 0 EvNodeStart (Some (KN 2))) st = 1 /\ ctr_get (CEmit 0 EvNodeComplete (Some (KN 2))) st = 1.
 Proof. vm_compute. repeat split; reflexivity. Qed.
+
+
+(* ---- kind F: all plain programs, all schedules, non-raising managers ---------------------------------------------------- *)
+From MLPE Require Import Proofs.PlainWorld Proofs.PlainLive Proofs.PlainCore Proofs.PlainDeadlock Proofs.PlainEvents Proofs.PlainPipe Proofs.PlainQuiet.
+
+Definition managers_do_not_raise (P : prog) : Prop := forall m ev n k, p_mgr_fault P m ev n k = false.
+
+(* [done_ev m n] = on_node_complete(n, error=None) seen by manager m; the history is newest first: in [a ++ o :: b], b is what
+   happened before o *)
+Theorem C14_on_plain_programs_values_follow_node_complete :
+  forall P, plain_prog P -> NoDup (p_order P (maind P)) -> managers_do_not_raise P ->
+  forall st, reachable P st ->
+    (forall n, exists_result n (st_store st) = true -> forall m, m < p_mgrs P -> In (done_ev m n) (st_trace st)) /\
+    (over st = false -> main_done st = false ->
+     forall a b i k kw, st_trace st = a ++ OStart i k kw :: b ->
+       exists nd, real_index nd = i /\
+                  forall p, In p (preds (b_graph (build (p_decls P) (p_inp P) (p_out P))) nd) ->
+                            forall m, m < p_mgrs P -> In (done_ev m p) b).
+Proof.
+  intros P HP Hnd Hnf st Hr. split.
+  - exact (plain_values_after_announcement P HP Hnf st Hr).
+  - intros Ho Hm. exact (plain_bodies_start_after_announcement P HP Hnd Hnf st Hr Ho Hm).
+Qed.
+Print Assumptions C14_on_plain_programs_values_follow_node_complete.
+
+(* [cnt (is_ps m)] / [cnt (is_pc m)] count the on_pipeline_start / on_pipeline_complete callbacks of manager m in the history *)
+Theorem C14_on_plain_programs_pipeline_events :
+  forall P, plain_prog P -> managers_do_not_raise P ->
+  forall st, reachable P st ->
+    (forall m, cnt (is_ps m) (st_trace st) <= 1) /\ (forall m, cnt (is_pc m) (st_trace st) <= 1) /\
+    (forall m n e r, In (OEmit m EvPipelineStart n e r) (st_trace st) -> n = None /\ e = None /\ r = None) /\
+    (forall m n e r, In (OEmit m EvPipelineComplete n e r) (st_trace st) -> n = None) /\
+    (forall v, main_state st = Some (TDone (SVal v)) ->
+       (forall m, m < p_mgrs P -> cnt (is_ps m) (st_trace st) = 1 /\ cnt (is_pc m) (st_trace st) = 1) /\
+       (forall m n e r, In (OEmit m EvPipelineComplete n e r) (st_trace st) -> e = None /\ r = Some v)) /\
+    (forall x, main_state st = Some (TDone (SResErr x)) ->
+       (forall m, m < p_mgrs P -> cnt (is_ps m) (st_trace st) = 1 /\ cnt (is_pc m) (st_trace st) = 1) /\
+       (forall m n e r, In (OEmit m EvPipelineComplete n e r) (st_trace st) -> e = Some x /\ r = None)).
+Proof. exact plain_pipeline_events. Qed.
+Print Assumptions C14_on_plain_programs_pipeline_events.
+
+(* [early o]: o is the creation of the chart task or an on_pipeline_start callback *)
+Theorem C14_on_plain_programs_pipeline_start_comes_first :
+  forall P, plain_prog P -> managers_do_not_raise P ->
+  forall st, reachable P st ->
+    forall a o b, st_trace st = a ++ o :: b -> early o = false -> forall m, m < p_mgrs P -> cnt (is_ps m) b = 1.
+Proof. exact plain_pipeline_start_comes_first. Qed.
+Print Assumptions C14_on_plain_programs_pipeline_start_comes_first.
+
+(* [is_pc_any o]: o is an on_pipeline_complete callback; a is what happened after o *)
+Theorem C14_on_plain_programs_pipeline_complete_comes_last :
+  forall P, plain_prog P -> managers_do_not_raise P ->
+  forall st, reachable P st ->
+    forall a o b, st_trace st = a ++ o :: b -> is_pc_any o = true -> forallb is_pc_any a = true.
+Proof. exact plain_pipeline_complete_comes_last. Qed.
+Print Assumptions C14_on_plain_programs_pipeline_complete_comes_last.
+
+(* the hypotheses are met by the rhombus with a suspending event manager, and a complete run of it shows every event in the
+   history (so the conclusions above are about non-empty histories) *)
+Example C14_plain_hypotheses_hold :
+  plain_prog cat_rhombus_gated_events /\ NoDup (p_order cat_rhombus_gated_events (maind cat_rhombus_gated_events)) /\
+  managers_do_not_raise cat_rhombus_gated_events /\ p_mgrs cat_rhombus_gated_events = 1.
+Proof.
+  split; [|split; [|split]].
+  - assert (Hp : forall P bs, p_body P = dsl_body bs -> forallb (fun nb => beh_plain (nb_beh nb)) bs = true ->
+                              graph_plain (b_graph (build (p_decls P) (p_inp P) (p_out P))) = true -> kw_clean (p_input P) = true -> plain_prog P).
+    { intros P bs Eb Hb Hg Hi. split; [exact Hg|]. split; [rewrite Eb; apply dsl_body_clean; exact Hb|exact Hi]. }
+    eapply Hp; [reflexivity|vm_compute; reflexivity|vm_compute; reflexivity|vm_compute; reflexivity].
+  - apply nodupb_sound. vm_compute. reflexivity.
+  - intros m ev n k. reflexivity.
+  - reflexivity.
+Qed.
